@@ -73,10 +73,11 @@ def implied_by_atime_lt_mtime(ev):
     """branch edge on a comparison of (atime, mtime) whose truth is implied by atime < mtime."""
     if ev['k'] != 'branch' or 'eq' not in ev:
         return None
-    t = VAL[ev['val']]
-    if not (t[0] == 'sym' and t[1] == 'cmp'):
+    from rules.common import norm_cmp
+    nc = norm_cmp(VAL[ev['val']])
+    if nc is None:
         return None
-    op, a, b = t[2], t[3], t[4]
+    op, a, b = nc
     a_at = mentions_app(a, 'filetime::FileTime::from_last_access_time') or mentions_app(a, 'std::fs::Metadata::accessed')
     a_mt = mentions_app(a, 'filetime::FileTime::from_last_modification_time') or mentions_app(a, 'std::fs::Metadata::modified')
     b_at = mentions_app(b, 'filetime::FileTime::from_last_access_time') or mentions_app(b, 'std::fs::Metadata::accessed')
